@@ -28,8 +28,18 @@ E = Ellipsis
 SCALARS = ("bool", "int", "float", "str", "bytes", "uuid4", "datetime", "date")
 
 
+def _own(x):
+    """Every build evaluates its own literals: a nan written in a declaration is a NEW float
+    object each time the declaration runs (two builds never share one by identity), and so are
+    the lists / dicts of a from_native or substitution value."""
+    if isinstance(x, float) and x != x:
+        return float("nan")
+    return x
+
+
 def apply_call(s, c):
     name = c[0]
+    c = (name,) + tuple(_own(a) for a in c[1:])
     if name == "call":
         return s(c[1])
     if name == "len":
@@ -75,7 +85,7 @@ def _own_copy(v):
         return [_own_copy(x) for x in v]
     if type(v) is dict:
         return {k: _own_copy(x) for k, x in v.items()}
-    return v
+    return _own(v)
 
 
 def set_warm(flag):
